@@ -96,7 +96,7 @@ theorem lemma_live_panic (sn : Sniff) (w : CW) (p : Base) (h : Live sn w p) (nb 
       obtain ⟨_, hcm, hp⟩ := st0 h0
       have e : w.close sn = { w with decided := true, compress := false, buffer := [] } := by
         rw [nf]
-        simp [CW.close, CW.start, CW.restoreHeader, hcm, hb, h0]
+        simp [CW.close, CW.start, CW.restoreHeader, CW.restoreTrailers, hcm, hb, h0]
       rw [e]
       refine ⟨rfl, rfl, ?_, ?_⟩
       · simp only
